@@ -1305,15 +1305,30 @@ where
             {
                 let _flag = ResetableFlag { flag: &self.fsync_in_progress };
                 let safe = self.safe.read().await;
-                if self.too_many_dirty_bytes_in_active_blob(&safe).await {
+                let something_to_sync = match &safe.active_blob {
+                    Some(ablob) => ablob.read().await.file_syncable_dirty_bytes() > 0,
+                    None => false,
+                };
+                if something_to_sync && self.too_many_dirty_bytes_in_active_blob(&safe).await {
                     safe.fsyncdata().await?;
                 }
             }
             // A write that crossed the limit while the flag was up has not asked for a sync. Look again now that the
             // flag is down: a write that finishes after this look sees the flag down and asks by itself.
-            let safe = self.safe.read().await;
-            if !self.too_many_dirty_bytes_in_active_blob(&safe).await {
-                return Ok(());
+            let nothing_to_sync_yet = {
+                let safe = self.safe.read().await;
+                if !self.too_many_dirty_bytes_in_active_blob(&safe).await {
+                    return Ok(());
+                }
+                match &safe.active_blob {
+                    Some(ablob) => ablob.read().await.file_syncable_dirty_bytes() == 0,
+                    None => false,
+                }
+            };
+            if nothing_to_sync_yet {
+                // all the un-synced bytes belong to appends that are still in flight (the caller of one may have been
+                // dropped): nobody reports them when they land, so this task waits for them
+                tokio::time::sleep(Duration::from_millis(10)).await;
             }
         }
     }
